@@ -35,9 +35,10 @@ var frames = []string{"%s", "a : %s", "%s a", "( %s )", "a : ( %s a )", "( %s a 
 
 func init() {
 	core.Register(&core.Check{
-		ID:    "C01",
-		Title: "Parsing and rendering are total: no panic, no hang, no garbled output",
-		Instr: true,
+		ID:          "C01",
+		OwnsCrashes: true,
+		Title:       "Parsing and rendering are total: no panic, no hang, no garbled output",
+		Instr:       true,
 		Units: func(tier string) []core.Unit {
 			n, l := 4, 4
 			if tier == "thorough" {
